@@ -31,6 +31,16 @@ JSON
   if [ "${1:-0}" = 1 ]; then
     go build "${MODFILE[@]}" -race -overlay "$B/overlay.json" -o "$B/simcheck.race" ./cmd/simcheck 2>"$B/build.err" || { cat "$B/build.err" >&2; echo "HARNESS-FAULT: race build failed" >&2; exit 2; }
   fi
+  if [ "${1:-0}" = 1 ]; then
+    # fine-grained build: a scratch copy of the repository whose every statement is preceded
+    # by a scheduling point (harness/cmd/instrument), rebuilt from the working tree each time
+    go build -o "$B/instrument" ./cmd/instrument 2>"$B/build.err" || { cat "$B/build.err" >&2; echo "HARNESS-FAULT: instrumenter build failed" >&2; exit 2; }
+    rm -rf "$B/repo.fine"; mkdir -p "$B/repo.fine"
+    rsync -a --exclude .git "$REPO/" "$B/repo.fine/" || { echo "HARNESS-FAULT: cannot copy the repository" >&2; exit 2; }
+    "$B/instrument" "$B/repo.fine" > "$B/instrument.log" 2>&1 || { cat "$B/instrument.log" >&2; echo "HARNESS-FAULT: instrumentation failed" >&2; exit 2; }
+    sed "s|=> /repo|=> $B/repo.fine|" go.mod > "$B/go.fine.mod"; cp "$REPO/go.sum" "$B/go.fine.sum"
+    go build -modfile "$B/go.fine.mod" -tags fine -overlay "$B/overlay.json" -o "$B/simcheck.fine" ./cmd/simcheck 2>"$B/build.err" || { cat "$B/build.err" >&2; echo "HARNESS-FAULT: fine-grained build failed" >&2; exit 2; }
+  fi
   cd "$V"
 }
 
@@ -40,16 +50,16 @@ case "${1:-}" in
   --setup)
     build 1; echo "setup ok"; exit 0;;
   --selftest)
-    build 0
+    build 1
     shift
-    exec "$B/simcheck" -selftest -tmp "$B/tmp" -replays "$B/tmp" ${1:+-prop "$1"} ${2:+-selftest-n "$2"};;
+    exec "$B/simcheck" -selftest -finebin "$B/simcheck.fine" -tmp "$B/tmp" -replays "$B/tmp" ${1:+-prop "$1"} ${2:+-selftest-n "$2"};;
   C[0-9]*)
     P=$1; shift
     R=0; needs_race "$P" && R=1
     build $R
     case "${1:-quick}" in
-      --replay) exec "$B/simcheck" -replay "$2" -racebin "$B/simcheck.race" -tmp "$B/tmp";;
-      quick|thorough) T=$1; shift; exec "$B/simcheck" -prop "$P" -tier "$T" -racebin "$B/simcheck.race" -evidence "$OUT/evidence" -replays "$OUT/replays" -known "$V/known_findings.json" -tmp "$B/tmp" "$@";;
+      --replay) exec "$B/simcheck" -replay "$2" -racebin "$B/simcheck.race" -finebin "$B/simcheck.fine" -tmp "$B/tmp";;
+      quick|thorough) T=$1; shift; exec "$B/simcheck" -prop "$P" -tier "$T" -racebin "$B/simcheck.race" -finebin "$B/simcheck.fine" -evidence "$OUT/evidence" -replays "$OUT/replays" -known "$V/known_findings.json" -tmp "$B/tmp" "$@";;
       *) echo "usage" >&2; exit 2;;
     esac;;
   *) echo "usage: $0 --setup | Cxx quick|thorough | Cxx --replay file | --selftest" >&2; exit 2;;
